@@ -80,4 +80,25 @@ def f(k):
     out.append([bool(Flag(False)), bool(Flag(True)), 1 if Flag(False) else 0, len(Flag(False))])
     return out
 """),
+    (3, """
+class Name:
+    def __init__(self, parts):
+        self.parts = list(parts)
+    def __str__(self):
+        return '::'.join(self.parts)
+    def __eq__(self, other):
+        if isinstance(other, Name):
+            return str(self) == str(other)
+        return False
+    def __ne__(self, other):
+        return not self.__eq__(other)
+class Plain:
+    def __init__(self, n):
+        self.n = n
+def f(k):
+    a, b, c = Name(['x', 'y']), Name(['x', 'y']), Name(['x'] * k)
+    p, q = Plain(1), Plain(1)
+    seen = [a]
+    return [a == b, a != b, a == c, b in seen, c in seen, c not in seen, a == 'x::y', p == q, p in [q], p in [q, p], [b] == [a]]
+"""),
 ]
